@@ -38,6 +38,11 @@ def validate(proto, out, r):
     if proto in ("gopher", "sgopher"):
         if not out and not r.handler:
             return "no bytes and no handler"
+        if not r.handler and out[:1] == b"3":
+            # an error answer is one menu line: type 3, four fields, one CR LF at the end and no line break before it
+            body = out[:-2] if out.endswith(b"\r\n") else out
+            if not out.endswith(b"\r\n") or b"\r" in body or b"\n" in body or body.count(b"\t") != 3:
+                return "error line is not one menu line"
         return None
     if proto in ("gopherp", "sgopherp"):
         m = re.match(rb"(\+-?\d+|--\d+)\r\n", out)
@@ -192,6 +197,11 @@ def run(ctx):
                          (b"/mail/box.mbox|/MBOX-MESSAGE/1000000000000000\r\n", False), (b"/maild|/MAILDIR-MESSAGE/99999999999999999999\r\n", False),
                          (b"GET /mail/box.mbox%7C/MBOX-MESSAGE/123456789012345678 HTTP/1.0\r\n\r\n", False), (b"/mail/box.mbox|/MBOX-MESSAGE/0\r\n", False),
                          (b"/mail/box.mbox|/MBOX-MESSAGE/-1\r\n", False),
+                         # the directory cache file itself, by its selector, after listings have written it
+                         (b"/.cache.pygopherd.dir\r\n", False), (b"GET /docs/.cache.pygopherd.dir HTTP/1.0\r\n\r\n", False),
+                         # a bare CR in a selector that is not found; a Spartan length no read() can take
+                         (b"/no\rsuch\r\n", False), (b"/docs/a\rb\t+\r\n", False), (b"localhost / 99999999999999999999999999\r\n", False),
+                         (b"localhost /README 18446744073709551616\r\n", False),
                          # more digits than int() converts (CPython refuses beyond 4300), and digits that are not ASCII
                          (b"/mail/box.mbox|/MBOX-MESSAGE/" + b"9" * 5000 + b"\r\n", False), (b"GET /maild%7C/MAILDIR-MESSAGE/" + b"1" * 4301 + b" HTTP/1.0\r\n\r\n", False),
                          ("/mail/box.mbox|/MBOX-MESSAGE/\u0661\r\n".encode(), False), ("/mail/box.mbox|/MBOX-MESSAGE/\u00b2\r\n".encode(), False),
@@ -281,7 +291,8 @@ def run(ctx):
                     r, dt = ask(cfg, tree, rq, tls, listname == "full")
                     res.evaluations += 1
                     if mask(r.out or b"") != seq_out[i]:
-                        res.violation("C03:history-dependent:" + (r.handler or "nohandler"), "the response depends on read-only requests served before it",
+                        res.violation("C03:history-dependent:" + (r.handler or "nohandler") + (":cache-file" if b".cache.pygopherd.dir" in rq else ""),
+                                      "the response depends on read-only requests served before it",
                                       {"handlers": listname, "request": rq[:200], "tls": tls, "position_in_history": i},
                                       observed=seq_out[i][:200], required=mask(r.out or b"")[:200],
                                       replay={"handlers": listname, "request_latin1": rq.decode("latin-1"), "tls": tls})
